@@ -99,6 +99,7 @@ func (h Heap) clone() Heap {
 }
 
 type VC struct {
+	privCells   map[string]*Loc // private local cells by reference term (isPrivateCell)
 	e           *Engine
 	top         *ssa.Function
 	defs        []*Def
@@ -469,6 +470,8 @@ func (vc *VC) havocAll(h *Heap, guardWhy string) {
 
 // havocExcept forgets everything about the heap except maps matching the preserve patterns
 func (vc *VC) havocExcept(h *Heap, preserve []string) {
+	restore := vc.savePrivCells(*h, func(m string) bool { return !matchPreserve(preserve, m) })
+	defer restore(h)
 	old := vc.alloc(*h)
 	vc.epochs++
 	keep := map[string]string{}
@@ -487,7 +490,32 @@ func (vc *VC) havocExcept(h *Heap, preserve []string) {
 	vc.setRng(na, sApp("<=", old, na))
 }
 
+// savePrivCells reads the private local cells (see isPrivateCell) that live in maps about to be forgotten and returns the
+// function that writes them back afterwards
+func (vc *VC) savePrivCells(h Heap, hit func(m string) bool) func(h *Heap) {
+	type saved struct {
+		l *Loc
+		v string
+	}
+	var ss []saved
+	for _, ref := range sortedKeys(vc.privCells) {
+		l := vc.privCells[ref]
+		if hit(l.Map) {
+			ss = append(ss, saved{l, vc.loadLoc(h, l)})
+		}
+	}
+	return func(h *Heap) {
+		for _, s := range ss {
+			vc.storeLoc(h, s.l, s.v)
+		}
+	}
+}
+
 func (vc *VC) havocMap(h *Heap, name string) {
+	if strings.HasPrefix(name, "C_") && len(vc.privCells) > 0 {
+		restore := vc.savePrivCells(*h, func(m string) bool { return m == name })
+		defer restore(h)
+	}
 	srt, ok := vc.mapSorts[name]
 	if !ok {
 		vc.n++
